@@ -194,3 +194,41 @@ def with_settled(term, consts):
     if term and term[0] in ("param", "free", "arg") and len(term) > 1 and term[1] in consts:
         return ("const", consts[term[1]])
     return tuple(with_settled(x, consts) if isinstance(x, tuple) else x for x in term)
+
+
+def subscribe_inits(site):
+    """{closure variable name: AST node of its initial value} for the state a subscribe function creates for its handlers: plain
+    `x = expr` statements of its body, and the slots of a state holder created there -- `h = types.SimpleNamespace(a=expr)` gives
+    'h.a', `h = [expr]` gives 'h[0]', `h = Record()` (a plain local / module class with class-level defaults or an __init__ assigning to
+    self) gives 'h.attr', and a following `h.attr = expr` statement (the executor names holder slots the same way)."""
+    import ast as _ast
+    m, fn = site.module, site.subscribe_fn
+    out = {}
+    if fn is None:
+        return out
+    for s in fn.body:
+        if isinstance(s, _ast.Assign) and len(s.targets) == 1 and isinstance(s.targets[0], _ast.Name):
+            name, v = s.targets[0].id, s.value
+            out[name] = v
+            if isinstance(v, _ast.Call) and not v.args and _ast.unparse(v.func) in ("types.SimpleNamespace", "SimpleNamespace"):
+                for k in v.keywords:
+                    if k.arg:
+                        out["%s.%s" % (name, k.arg)] = k.value
+            elif isinstance(v, _ast.List) and len(v.elts) == 1:
+                out["%s[0]" % name] = v.elts[0]
+            elif isinstance(v, _ast.Call) and isinstance(v.func, _ast.Name) and not v.args and not v.keywords:
+                cls = [c for c in _ast.walk(fn) if isinstance(c, _ast.ClassDef) and c.name == v.func.id] or \
+                      [c for c in m.tree.body if isinstance(c, _ast.ClassDef) and c.name == v.func.id]
+                if len(cls) == 1:
+                    for b in cls[0].body:
+                        if isinstance(b, _ast.Assign) and len(b.targets) == 1 and isinstance(b.targets[0], _ast.Name) and b.targets[0].id != "__slots__":
+                            out["%s.%s" % (name, b.targets[0].id)] = b.value
+                        elif isinstance(b, _ast.FunctionDef) and b.name == "__init__" and b.args.args:
+                            me = b.args.args[0].arg
+                            for x in b.body:
+                                if isinstance(x, _ast.Assign) and len(x.targets) == 1 and isinstance(x.targets[0], _ast.Attribute) \
+                                        and isinstance(x.targets[0].value, _ast.Name) and x.targets[0].value.id == me:
+                                    out["%s.%s" % (name, x.targets[0].attr)] = x.value
+        elif isinstance(s, _ast.Assign) and len(s.targets) == 1 and isinstance(s.targets[0], _ast.Attribute) and isinstance(s.targets[0].value, _ast.Name):
+            out["%s.%s" % (s.targets[0].value.id, s.targets[0].attr)] = s.value
+    return out
